@@ -6,7 +6,7 @@ from debian_inspector import copyright as cr
 
 ID = 'C20'
 LEVEL = 'proof'
-THEOREMS = [('DebInspector.Thm.C20', ['Props.C20.safe_enc', 'Props.C20.safe_ft', 'Props.C20.inverse_core', 'Props.C20.inverse_partial'])]
+THEOREMS = [('DebInspector.Thm.C20', ['Props.C20.sound_partial', 'Props.C20.safe_enc', 'Props.C20.safe_ft', 'Props.C20.safe_desc', 'Props.C20.safe_lic', 'Props.C20.inverse_core', 'Props.C20.inverse_partial', 'Props.C20.fixpoint_core', 'Props.C20.fixpoint_partial', 'Props.C20.first_line'])]
 TRUSTED = [
     'Lean 4.33.0 kernel',
     'reading of the property as Props.C20.holdsOn (safety at every Python line boundary; inverse, fixpoint and first-line clauses with the stated preconditions)',
@@ -18,14 +18,17 @@ ASSUMPTIONS = ['K4: a blank first line does not round-trip (known finding); K5: 
 RULE = ('exhaustive: all texts of <= L lines over 14 line kinds (x, "x  ", empty, "  ", " v", "  v", tab-v, ".", ".x", "a b", " .", "  .", '
         'NBSP-indented, a line containing FF) joined by LF, with and without a final newline; random printable texts with punctuation-only lines. '
         'non-trivial = at least two lines')
-TECHNIQUE = 'Lean 4 theorems for safety and for decode(encode(t)) over all texts + executable spec (fixpoint/first-line clauses) evaluated on every observation + exhaustive small-scope correspondence'
-LEVEL_TEXT = ('Props.C20.safe_enc / safe_ft: for every Unicode text, every line after the first of as_formatted_text(t) (and of '
-              'FormattedTextField dumps) - lines taken at every Python line boundary - starts with a space and is not blank, proved in Lean 4 '
-              '(splitlines output is boundary-free; blank pieces become "."). Props.C20.inverse_core / inverse_partial: for every text whose first line is not blank (K4), with no line '
-              'starting with a full stop and no later line starting with non-U+0020 white space, from_formatted_text(as_formatted_text(t)) = t with the first line trimmed and '
-              'trailing blanks removed from the others, verbatim lines keeping their indentation (any number and length of lines). The fixpoint and first-line clauses are decided by the '
-              'executable specification on every implementation observation and by exhaustive correspondence over all texts of <= 4/5 lines '
-              'over 14 line kinds; they are not yet theorems.')
+TECHNIQUE = ('Lean 4 theorem Props.C20.sound_partial: every clause of the property (safety, inverse, fixpoint, first line) for every Unicode text, '
+             'under the hypotheses of known findings K4/K5 + the full-strength executable spec evaluated on every observation + exhaustive small-scope correspondence')
+LEVEL_TEXT = ('Props.C20.sound_partial: for every Unicode text t (any number and length of lines) the model satisfies every clause of the property, with the hypotheses of the two '
+              'known findings added: (safety) every line after the first of as_formatted_text(t) and of the dumps of FormattedTextField, DescriptionField and LicenseField '
+              'built from t - lines taken at every Python line boundary - starts with a space and is not blank (safe_enc, safe_ft, safe_desc, safe_lic); '
+              '(inverse) if no line starts with a full stop, no later line starts with non-U+0020 white space and the first line is not blank (K4) then '
+              'from_formatted_text(as_formatted_text(t)) = t with the first line trimmed and trailing blanks removed from the others, verbatim lines keeping their indentation (inverse_partial); '
+              '(fixpoint) for policy-conformant values ending in at most one marker (K5) enc(dec(enc(dec v))) = enc(dec v) (fixpoint_partial); '
+              '(first line) description and license renderings keep the trimmed first line (first_line). Proved in Lean 4 by induction over lines and characters. '
+              'The full-strength statement (without the K4/K5 hypotheses) is holdsOn, evaluated on every implementation observation; the model is tied to the code by exhaustive '
+              'correspondence over all texts of <= 4/5 lines over 14 line kinds.')
 LEVEL_NOTE = ('Trusted: Lean kernel; axioms propext, Classical.choice, Quot.sound only; model tied to the code by exhaustive '
               'small-scope correspondence; K4 and K5 are known findings.')
 
